@@ -880,4 +880,82 @@ def run_derivedfield(prog, ctx=None):
                     res.ob("%s:%s follows %s" % (f.qn, a, bpath), ok, f, n0.get("l", f.line) or f.line,
                            "" if ok else "`%s` gives %s a new value, but %s, which %s derives from it, is neither stored here nor by a callee that is handed the object: the cached value belongs to the old %s" % (
                                norm(show(n0, f)), bpath, a, ", ".join(sorted(k[2] if isinstance(k, tuple) and len(k) > 2 else str(k) for k in dfs))[:60], bpath))
+            # path clause: behind a change of the source member (a store to it, or a callee that is handed the address of the
+            # sub-object it lives in) no exit of the function is reached with the cached pointer as it was: it is stored again,
+            # recomputed by a writer of the file that is handed the object, or it was null already (null is never stale)
+            bpre = bpath.split(".")[0]
+            for f in funcs:
+                _derived_paths(prog, f, a, bpath, bpre, writers.get(a, ()), mpath, res)
     return res
+
+
+def _derived_paths(prog, f, a, bpath, bpre, awriters, mpath, res):
+    """typestate of the cached member per object root: U as found, N null, F stored here, S stale (source changed behind it)"""
+    # events per (block, element index): list of (root id, kind)
+    ev = {}
+    roots = set()
+    names = {}
+    for b, i, e in f.elements():
+        out = []
+        for n in walk_own(e):
+            if n.get("k") == "bin" and n.get("op") == "=":
+                pth, root = mpath(n["a"])
+                if pth and isinstance(root, dict) and root.get("k") == "ref" and "id" in root["d"]:
+                    rid = root["d"]["id"]
+                    names[rid] = root["d"].get("n")
+                    if pth == a:
+                        out.append((rid, "N" if cval(n["b"]) == 0 else "F"))
+                    elif pth == bpath:
+                        out.append((rid, "chg"))
+                        roots.add(rid)
+            if n.get("k") == "call":
+                tg = prog.resolve_call(f, n)
+                for x in n.get("args", []):
+                    s = strip(x, all_casts=True)
+                    if s.get("k") == "un" and s.get("op") == "&":
+                        pth, root = mpath(s["e"])
+                        if pth and pth.split(".")[0] == bpre and (pth == bpre or bpath.startswith(pth + ".") or pth == bpath) \
+                                and isinstance(root, dict) and root.get("k") == "ref" and "id" in root["d"]:
+                            ptee = f.T(f.pointee(x.get("t")) if f.pointee(x.get("t")) is not None else -1)
+                            if not ptee.get("const"):
+                                out.append((root["d"]["id"], "chg"))
+                                roots.add(root["d"]["id"])
+                                names[root["d"]["id"]] = root["d"].get("n")
+                    r = root_of(x)
+                    if r is not None and any(g.key() in awriters for g in tg):
+                        out.append((r, "F"))
+        if out:
+            ev[(b.id, i)] = out
+    for rid in sorted(roots):
+        # forward may-analysis over {U, N, F, S}
+        IN = {bid: set() for bid in f.blocks}
+        IN[f.entry] = {"U"}
+        work = [f.entry]
+        OUTS = {}
+        bad = None
+        while work:
+            bid = work.pop()
+            st = set(IN[bid])
+            blk = f.blocks[bid]
+            for i, e in enumerate(blk.el):
+                for r, k in ev.get((bid, i), []):
+                    if r != rid:
+                        continue
+                    if k == "chg":
+                        st = {("N" if x == "N" else "S") for x in st}
+                    else:
+                        st = {k}
+                if e.get("k") == "ret" and "S" in st and bad is None:
+                    v = cval(e["e"]) if e.get("e") is not None else None
+                    if not (v is not None and v < 0):
+                        bad = e
+            if OUTS.get(bid) == st:
+                continue
+            OUTS[bid] = st
+            for s2 in blk.succ:
+                if s2 is not None and s2 in IN and not st <= IN[s2]:
+                    IN[s2] |= st
+                    work.append(s2)
+        res.ob("%s:%s behind %s of %s" % (f.qn, a, bpath, names.get(rid) or "?"), bad is None, f, (bad.get("l") if bad else f.line) or f.line,
+               "" if bad is None else "`%s` is reached on a path where %s was changed and %s, derived from it, was neither stored afterwards nor null before: the cached pointer belongs to the old %s" % (
+                   norm(show(bad, f)), bpath, a, bpath))
